@@ -138,3 +138,22 @@ Example C19_rerun_after_history_nonvacuous :
   fst (run2 unit _ ex_body_ok [0; 1] [Some 5%Z; Some 6%Z] tt ex_fresh2).
 Proof. exact rerun_after_history_nonvacuous. Qed.
 Print Assumptions C19_rerun_after_history_nonvacuous.
+
+(* (9) caller-owned description / controller_params shared between constructions: if what a
+   construction leaves in the caller's dicts is equivalent (w.r.t. everything a construction reads) to
+   what it found, then a controller built from the same objects after an edit equals the controller
+   built from the edited fresh dicts.  The frame condition itself is checked on the real code by the
+   harness (deep snapshot of the dicts before/after construction and run; B-after-A vs B-fresh). *)
+Theorem C19_shared_description_frame :
+  forall (Descr Ctl : Type) (build : Descr -> Ctl * Descr) (eqv : Descr -> Descr -> Prop),
+    (forall d d', eqv d d' -> fst (build d) = fst (build d')) ->
+    (forall d, eqv (snd (build d)) d) ->
+    forall (edit : Descr -> Descr), (forall d d', eqv d d' -> eqv (edit d) (edit d')) ->
+    forall d, build_after Descr Ctl build edit d = fst (build (edit d)).
+Proof. exact shared_description_frame. Qed.
+Print Assumptions C19_shared_description_frame.
+
+Example C19_shared_hook_list_nonvacuous : forall user,
+  build_after _ _ build_hooks (fun l => l) user = fst (build_hooks user).
+Proof. exact shared_hook_list_nonvacuous. Qed.
+Print Assumptions C19_shared_hook_list_nonvacuous.
